@@ -15,11 +15,29 @@ def optNat (j : Json) : Except String (Option Nat) :=
   | _ => do let n ← j.getNat?; pure (some n)
 
 mutual
-  partial def parseNode (j : Json) : Except String NodeT := do
+  /-- an attribute as observed: `["ref"]` (reference attribute, any declared type), `["g", graph]`,
+      `["gs", [graph, ...]]`, `["x"]` (any other type) -/
+  partial def parseAttr (j : Json) : Except String AttrT := do
+    match j with
+    | .arr #[.str "ref"] => pure .ref
+    | .arr #[.str "x"] => pure .other
+    | .arr #[.str "g", g] => pure (.graph (← parseGraph g))
+    | .arr #[.str "gs", .arr gs] => pure (.graphs (← gs.toList.mapM parseGraph))
+    | _ => throw "bad attribute"
+  /-- a node with its attribute list as the code reads it; `"b"` (already flattened bodies) is accepted for
+      old requests -/
+  partial def parseNodeA (j : Json) : Except String (NodeT × List AttrT) := do
     let ins ← (← getArr j "i").mapM optNat
     let outs ← getNats j "o"
-    let bs ← (← getArr j "b").mapM parseGraph
-    pure (.mk ins outs bs)
+    match j.getObjVal? "a" with
+    | .ok (.arr as) =>
+      let attrs ← as.toList.mapM parseAttr
+      pure (.mk ins outs (attrBodies attrs), attrs)
+    | _ =>
+      let bs ← (← getArr j "b").mapM parseGraph
+      pure (.mk ins outs bs, bs.map AttrT.graph)
+  partial def parseNode (j : Json) : Except String NodeT := do
+    pure (← parseNodeA j).1
   partial def parseGraph (j : Json) : Except String GraphT := do
     let ns ← (← getArr j "n").mapM parseNode
     pure (.mk (← getNat j "g") (← getNats j "i") (← getNats j "w") (← getNats j "o") ns)
@@ -86,12 +104,18 @@ def hypJ (W : World) (T : Target) (v : View) : Json :=
            ("scope", toJson (scopeB W (T.kind == Kind.function) v.inputs v.outputs p v.nodes)),
            ("names", toJson (initNamesB W))]
 
+/-- the structural facts of the `_source` theorems, evaluated on one successful cut: the node list is the
+    last occurrences of the source's list filtered by the result (`C18_order_source`) -/
+def orderOKB (T : Target) (v : View) : Bool :=
+  v.nodes == (dedupLast T.nodes).filter (fun n => v.nodes.contains n)
+
 def runJ (W : World) (T : Target) (ins outs : List Arg) : Json :=
   match extract W T ins outs with
   | .error e => errJ e
   | .ok v => obj [("r", Json.str "ok"), ("inputs", natsJ v.inputs), ("outputs", natsJ v.outputs),
                   ("nodes", natsJ v.nodes), ("inits", natsJ (canonSet v.inits)),
-                  ("rewired", natsJ (canonSet (rewired W v))), ("hyp", hypJ W T v)]
+                  ("rewired", natsJ (canonSet (rewired W v))), ("hyp", hypJ W T v),
+                  ("orderOK", toJson (orderOKB T v)), ("dupNodes", toJson (!nodupB T.nodes))]
 
 def handle : Handler := fun m j =>
   match m with
@@ -128,14 +152,43 @@ def handle : Handler := fun m j =>
       return obj [("r", Json.arr ((valueMapping W T).map (fun kv => Json.arr #[Json.str kv.1, toJson kv.2])).toArray)]
   | "extract.analyze" => some do
       let W ← parseWorld j
-      let g ← parseGraph (← j.getObjVal? "graph")
-      let u := analyze W g
+      let gj ← j.getObjVal? "graph"
+      let g ← parseGraph gj
+      -- the top-level nodes with their attribute lists: the result is computed branch by branch over the
+      -- attributes (`procAttrs`), under the root identity given (`root`: the Graph, or a Function object)
+      let nas ← (← getArr gj "n").mapM parseNodeA
+      let root := (j.getObjValAs? Nat "root").toOption.getD g.gid
+      let u := nas.foldl (fun u na => procAttrs W [root] u na.2) []
       let u := (u.toArray.qsort (fun a b => a.1 < b.1)).toList
+      let u2 := analyze W g
+      let u2 := (u2.toArray.qsort (fun a b => a.1 < b.1)).toList
       let bodies := g.nodes.flatMap (·.bodies)
       let all := bodies.flatMap gidsG
-      let hyp := bodies.all (fun b => scopedGB W all [] b) && (bodies.flatMap subGraphs).all (backPtrB W)
-      return obj [("r", Json.arr (u.map (fun kv => Json.arr #[toJson kv.1, natsJ (canonSet kv.2)])).toArray),
-                  ("hyp", toJson hyp)]
+      let scopedOK := bodies.all (fun b => scopedGB W all [] b)
+      let ptr := (bodies.flatMap subGraphs).all (backPtrB W)
+      let uniq := uniqueGidsB g.nodes
+      let canon := fun (u : Usages) => Json.arr (u.map (fun kv => Json.arr #[toJson kv.1, natsJ (canonSet kv.2)])).toArray
+      return obj [("r", canon u), ("r2", canon u2),
+                  ("hyp", toJson (scopedOK && ptr)), ("hypExact", toJson (scopedOK && ptr && uniq))]
+  | "extract.resolve" => some do
+      let W ← parseWorld j
+      let T ← parseTarget j
+      let names ← (← getArr j "names").mapM (fun x => x.getStr?)
+      let m := valueMapping W T
+      let cands := nameCandidates W T
+      let nodeVals := T.nodes.flatMap (fun n => (W.nodeD n).ins ++ (W.nodeD n).outputs)
+      let optJ := fun (o : Option Nat) => match o with | some v => toJson v | none => Json.null
+      let rs := names.map fun s =>
+        let cls :=
+          if (T.inits.lookup s).isSome then "init"
+          else if ((named W T.inputs).lookup s).isSome then "input"
+          else if ((named W nodeVals).lookup s).isSome then "node" else "missing"
+        let chk := match checkArg W T m (.name s) with
+          | .ok () => "ok"
+          | .error e => reprStr e
+        Json.arr #[optJ (m.lookup s), optJ (cands.lookup s), Json.str cls, Json.str chk,
+                   toJson ((cands.filter (fun kv => kv.1 == s)).map (·.2))]
+      return obj [("r", Json.arr rs.toArray), ("unique", toJson (namesUniqueB W T))]
   | _ => none
 
 end IrVerif.Drive.Extract
